@@ -1,6 +1,6 @@
 (* Theorems about the application runner (C15). *)
 From Coq Require Import List Bool Arith ZArith Lia.
-From Asphalt Require Import Gen.Gen_exitcode Conc.Runner.
+From Asphalt Require Import Gen.Gen_exitcode Gen.Gen_sighandler Conc.Runner.
 Import ListNotations.
 
 (* ---------- what a history registers ---------- *)
@@ -541,3 +541,10 @@ Theorem raisers_do_not_decide_the_end : forall cli raisers s,
 Proof.
   intros cli raisers s. unfold finish_r. destruct (finish cli s) as [[o out]|]; split; intro H; try discriminate; auto.
 Qed.
+
+(* ---------- handle_signals as read from the source (Gen_sighandler) ---------- *)
+Theorem signal_handler_source_shape :
+  sig_handler_is_service_task_of_root = true /\ sig_handler_started_before_components = true /\
+  sig_cancels_startup = true /\ sig_sets_event = true /\ sig_first_only = true /\
+  plain_application_waits_for_event = true.
+Proof. repeat split. Qed.
